@@ -158,6 +158,20 @@ def r1(prog, rep):
 # ------------------------------------------------------------------------------------------------ R2
 def bit_count_sufficient(n: ast.AST, depth=0) -> (Optional[bool], str):
     """n bits represent 0..2^n-1; need 2^n - 1 >= ub for integer values in [0, ub]."""
+    if isinstance(n, ast.IfExp):
+        rb, re_ = bit_count_sufficient(n.body, depth + 1), bit_count_sufficient(n.orelse, depth + 1)
+        guarded_const = lambda e: isinstance(e, ast.Constant) and isinstance(e.value, int) and e.value >= 1 and "ub" in norm(n.test)
+        res = []
+        for e, r in ((n.body, rb), (n.orelse, re_)):
+            if r[0] is None and guarded_const(e):
+                res.append((True, f"{e.value} bit(s) for the small case `{norm(n.test)}`"))
+            else:
+                res.append(r)
+        if any(r[0] is False for r in res):
+            return False, "; ".join(r[1] for r in res if r[0] is False)
+        if all(r[0] is True for r in res):
+            return True, " / ".join(r[1] for r in res)
+        return None, "conditional bit count with an undecided branch"
     if isinstance(n, ast.Call):
         fn = dotted(n.func) or ""
         if fn == "max" and not n.keywords:
